@@ -127,7 +127,7 @@ Proof. exact path_pipe_fields_law. Qed.
 Print Assumptions C01_path_concat.
 
 (* (4) towards C01_full: on the state-free fragment F0 (identity, scalar literals, pipe, comma, empty, t[], t.k,
-   if/else, try/catch, error, length, `src as $x | body`, $x, [q], reduce, foreach, //, label/break) the demand-driven CPS semantics IS the eager
+   if/else, try/catch, error, length, `src as $x | body`, $x, [q], reduce, foreach, //, label/break, arithmetic and comparison operators) the demand-driven CPS semantics IS the eager
    list semantics den0, written clause by clause like coq/c01vm/Den.v (which coq/c01vm proves equal to the
    compiled code running on the VM): for every continuation, hence for every observation *)
 Theorem C01_sem_is_list_semantics_F0 : forall bs rs,
